@@ -365,7 +365,8 @@ def keepExa : Nat → List Seg → List Seg
 
 /-- `merge_attributes` on segments (commit 72add9c). -/
 def mergeExa (as2 as4 : List Seg) : List Seg :=
-  if countExa as2 < countExa as4 then as2 else keepExa (countExa as2 - countExa as4) as2 ++ as4
+  if countExa as2 < countExa as4 then as2
+  else keepExa (countExa as2 - countExa as4) as2 ++ as4.filter (fun s => s.1 == 1 || s.1 == 2)
 
 /-- `merge_aggregator` (2-octet session, 18edd12): AS4_AGGREGATOR leaves the collection; it becomes the value of
     AGGREGATOR when that carries AS_TRANS; when AGGREGATOR carries another AS, AS4_PATH is void as well;
